@@ -1069,7 +1069,7 @@ theorem parseDirectiveDefinition_snd : Snd parseDirectiveDefinition DDefinition 
 theorem parseTypeSystemDefinition_snd : Snd parseTypeSystemDefinition DDefinition := by
   intro σ d σ' h hb
   simp only [parseTypeSystemDefinition, keywordToken, bind_ok, cur_run, Except.ok.injEq, Prod.mk.injEq] at h
-  obtain ⟨kw, σ1, ⟨_, _, ⟨rfl, rfl⟩, hkw⟩, h⟩ := h
+  obtain ⟨_, _, ⟨rfl, rfl⟩, kw, σ1, ⟨_, _, ⟨rfl, rfl⟩, hkw⟩, h⟩ := h
   have hσ1 : σ1 = σ := by
     split at hkw
     · simp only [bind_ok, lookahead_run, Except.ok.injEq, Prod.mk.injEq] at hkw
